@@ -120,6 +120,23 @@ def run(ctx):
     ctx.not_decided = ['JSON rendering of the filtered structure (json.dumps is trusted)']
     fpm = p.get_function('__main__.paranoia_mode')
     fvariants = generate_variants(p, '__main__.paranoia_mode', 1)
+    # class-level switches and extension points (a lower-case class attribute holding True / False or an empty tuple / list,
+    # there to be set by the user): the filter is decided again with each of them free; today's tree has none
+    from .. import evalr as _ev
+    if not getattr(ctx, '_c15_settings_run', False) and not _ev.Evaluator.SYMBOLIC_SETTINGS:
+        settings = [s_ for s_ in _ev.class_settings(p) if s_.split('.')[0] in ('PaperWallet', 'BaseWallet')]
+        if settings:
+            sub = ctx.__class__(ctx.pid, ctx.tier, ctx.p, ctx.seed)
+            sub._c15_settings_run = True
+            _ev.Evaluator.SYMBOLIC_SETTINGS = True
+            try:
+                run(sub)
+            finally:
+                _ev.Evaluator.SYMBOLIC_SETTINGS = False
+            for o in sub.obligations:
+                if o.rule == 'C15.FILTER':
+                    o.rule = 'C15.SETTINGS(=C15.FILTER, %s free)' % ', '.join(settings)
+                    ctx.obligations.append(o)
     for be, tn, (vname, extra), (fname, fextra) in [(b_, t_, v_, f_) for b_ in BACKENDS for t_ in (False, True)
                                                      for v_ in generate_variants(p) for f_ in fvariants
                                                      if not (v_[0] and f_[0])]:
